@@ -295,6 +295,16 @@ theorem newSpan_spec (s : System) (hs : Generic s = true) (a b : Version) (ao bo
   · cases h
   · cases h
 
+/-- The aliased call `newSpan(min, false, min, false)` of `setRange`. -/
+theorem newSpanAliased_spec (s : System) (hs : Generic s = true) (a : Version) (ha : BVw s a)
+    (sp : Span) (h : newSpanAliased a = .ok sp) : SpanInv s sp := by
+  unfold newSpanAliased at h
+  split at h
+  · exact newSpan_spec s hs a a false false ha ha sp h
+  · have h0 : BVw s (a.setTail wildcard 0) := (setTail_bv ha 0 ⟨by decide, by decide⟩).toBVw
+    exact newSpan_spec s hs _ _ false false h0 h0 sp h
+
+
 /-- The `fin` closure of `opVersionToSpan`. -/
 def opFin (lo hi : Version) (minOpen maxOpen : Bool) : Outcome Span := do
   let lo := lo.setTail infinity infinity
